@@ -215,7 +215,8 @@ func c19(r *rep.Run) {
 	})
 	// rejections
 	c := mk(0)
-	bad := []string{"10000", "99999", "a", "1a", "", " 1", "1 ", "1e3", "0x1", "9999999999999999999999"}
+	bad := []string{"10000", "99999", "a", "1a", "", " 1", "1 ", "1e3", "0x1", "9999999999999999999999",
+		"9223372036854775807", "9223372036854775808", "18446744073709551615", "18446744073709551616", "18446744073709551617", "18446744073709561615", "36893488147419103233", "00000000000000000000010000", "1_0", "٣"}
 	for n := 0; n <= 4; n++ {
 		N := n
 		if n == 0 {
